@@ -55,6 +55,46 @@ Proof.
   rewrite N.eqb_sym, H1. cbn. auto.
 Qed.
 
+Lemma is_prefix_app_long d l s : (length d <= length l)%nat -> is_prefix d (l ++ s) = is_prefix d l.
+Proof.
+  revert l; induction d as [|x d IH]; intros l H; [destruct l; reflexivity|].
+  destruct l as [|y l]; [cbn in H; lia|]. cbn. destruct (x =? y); cbn; auto. apply IH. cbn in H. lia.
+Qed.
+
+Lemma is_prefix_length d s : is_prefix d s = true -> (length d <= length s)%nat.
+Proof.
+  revert s; induction d as [|x d IH]; intros s H; [cbn; lia|].
+  destruct s as [|y s]; [discriminate|]. cbn in *. apply andb_true_iff in H as [_ H]. apply IH in H. lia.
+Qed.
+
+(* cutting at the first delimiter: if the first occurrence of d in a ++ d is the trailing d itself, the
+   same holds with anything appended *)
+Lemma split_first_app d : d <> [] -> forall a acc s,
+  split_first d acc (a ++ d) = Some (rev acc ++ a, []) ->
+  split_first d acc (a ++ d ++ s) = Some (rev acc ++ a, s).
+Proof.
+  intros Hd. induction a as [|x a IH]; intros acc s H.
+  - cbn [app] in *. destruct d as [|c d']; [congruence|]. cbn [split_first app].
+    change (c :: d' ++ s) with ((c :: d') ++ s). rewrite is_prefix_app. rewrite drop_app.
+    now rewrite app_nil_r.
+  - cbn [app split_first] in *.
+    destruct (is_prefix d (x :: a ++ d)) eqn:E.
+    + inversion H as [[H1 H2]]. exfalso. apply (f_equal (@length _)) in H1. rewrite app_length in H1. cbn in H1. lia.
+    + replace (x :: a ++ d ++ s) with ((x :: a ++ d) ++ s) by (cbn; now rewrite <- app_assoc).
+      rewrite is_prefix_app_long, E by (cbn; rewrite app_length; lia).
+      specialize (IH (x :: acc) s). cbn [rev] in IH. rewrite <- !app_assoc in IH. cbn [app] in IH.
+      apply IH. exact H.
+Qed.
+
+Lemma first_delim_split dl disc s : dl <> [] -> first_delim_ok dl disc = true ->
+  split_first dl [] (disc ++ dl ++ s) = Some (disc, s).
+Proof.
+  intros Hd H. unfold first_delim_ok in H.
+  destruct (split_first dl [] (disc ++ dl)) as [[p r]|] eqn:E; [|discriminate].
+  apply andb_true_iff in H as [H1 H2]. apply sch_bytes_eqb_eq in H1. subst p. destruct r; [|discriminate].
+  apply (split_first_app dl Hd disc [] s). exact E.
+Qed.
+
 (* ================================================================== finding the unique hit *)
 
 Lemma find_idx_intro {A} (p : A -> bool) l i x :
@@ -335,20 +375,28 @@ Section ReprStep.
         apply kind_eqb_eq in Hs. subst k. specialize (Hkk KString eq_refl).
         pose proof (Hrec _ _ Hh Hc) as Hr.
         destruct (rp (snd m) v) eqn:Erp; cbn in Hkk; try discriminate. cbn [str_of].
-        assert (Hfi : find_idx (fun m0 : minfo * ty => is_prefix (m_disc (fst m0)) (m_disc (fst m) ++ s)) ms = Some (i, m)).
-        { apply find_idx_intro; auto; [apply is_prefix_app|].
-          intros j y Hj Hy. destruct (is_prefix (m_disc (fst y)) (m_disc (fst m) ++ s)) eqn:Ep; auto.
-          exfalso. apply is_prefix_app_cases in Ep.
-          (* prefix_free forbids both *)
-          clear -Hpf En Hy Hj Ep. revert i j En Hy Hj. induction ms as [|a l IH]; intros i j En Hy Hj; [destruct i; discriminate|].
-          cbn in Hpf. apply andb_true_iff in Hpf as [Hh Ht].
-          destruct i as [|i]; [lia|]. cbn in En. destruct j as [|j]; cbn in Hy.
-          - inversion Hy; subst. rewrite forallb_forall in Hh.
-            specialize (Hh (m_disc (fst m))). rewrite andb_true_iff, !negb_true_iff in Hh.
-            destruct Hh as [H1 H2]; [apply (in_map (fun m0 : minfo * ty => m_disc (fst m0))); eapply nth_error_In; eauto|].
-            destruct Ep; congruence.
-          - apply (IH Ht i j); auto. lia. }
-        rewrite Hfi, drop_app, Hr. reflexivity.
+        assert (Hsp : sp_parse delim ms (m_disc (fst m) ++ delim ++ s) = Some (i, m, s)).
+        { unfold sp_parse. destruct delim as [|c dl'].
+          - cbn [app].
+            assert (Hfi : find_idx (fun m0 : minfo * ty => is_prefix (m_disc (fst m0)) (m_disc (fst m) ++ s)) ms = Some (i, m)).
+            { apply find_idx_intro; auto; [apply is_prefix_app|].
+              intros j y Hj Hy. destruct (is_prefix (m_disc (fst y)) (m_disc (fst m) ++ s)) eqn:Ep; auto.
+              exfalso. apply is_prefix_app_cases in Ep.
+              clear -Hpf En Hy Hj Ep. revert i j En Hy Hj. induction ms as [|a l IH]; intros i j En Hy Hj; [destruct i; discriminate|].
+              cbn in Hpf. apply andb_true_iff in Hpf as [Hh Ht].
+              destruct i as [|i]; [lia|]. cbn in En. destruct j as [|j]; cbn in Hy.
+              - inversion Hy; subst. rewrite forallb_forall in Hh.
+                specialize (Hh (m_disc (fst m))). rewrite andb_true_iff, !negb_true_iff in Hh.
+                destruct Hh as [H1 H2]; [apply (in_map (fun m0 : minfo * ty => m_disc (fst m0))); eapply nth_error_In; eauto|].
+                destruct Ep; congruence.
+              - apply (IH Ht i j); auto. lia. }
+            rewrite Hfi, drop_app. reflexivity.
+          - apply andb_true_iff in Hpf as [Hnd Hfd]. apply nodupb_NoDup in Hnd.
+            rewrite forallb_forall in Hfd. specialize (Hfd m (nth_error_In _ _ En)).
+            rewrite (first_delim_split (c :: dl') (m_disc (fst m)) s ltac:(discriminate) Hfd).
+            rewrite (find_idx_unique_gen (fun x : minfo * ty => m_disc (fst x)) bytes_eqb ms i m sch_bytes_eqb_eq Hnd En).
+            reflexivity. }
+        rewrite Hsp, Hr. reflexivity.
     - (* enum *)
       cbn [repr_step]. destruct (existsb_find _ _ Hh) as [x [Hx Hxs]]. rewrite Hx.
       apply find_name_In in Hx as [Hin Hname].
